@@ -72,6 +72,7 @@ fn main() {
         }
     }));
     let mut report = report::Report::new(&args.prop);
+    report::set_global(&mut report);
     engines::dispatch(&args, &mut report);
     report.finish();
 }
